@@ -2286,8 +2286,11 @@ fn probe_semi_anti_parallel(
             {
                 for probe_row in 0..n_rows {
                     // VHT point-lookup path: candidates straight from the
-                    // chained table, filter evaluated per candidate, stop at
-                    // the first pass (same semantics as the map path below).
+                    // chained table, filter evaluated per candidate. A probe
+                    // row's own match is settled by the first pass (swapped);
+                    // when the BUILD rows are the output, every build row
+                    // with this key matches this probe row and each must be
+                    // marked, so the walk continues (same in the map path).
                     if let (Some(vals), Some(v)) = (i64_values, use_vht) {
                         if let Some(ref nb) = null_bitmap {
                             if !nb.is_valid(probe_row) {
@@ -2295,6 +2298,15 @@ fn probe_semi_anti_parallel(
                             }
                         }
                         v.for_each_i64_candidate(vals[probe_row], |bb, br| {
+                            // Unfiltered, build rows are the output: an earlier
+                            // probe row with this key already walked (or is
+                            // walking) the whole chain.
+                            if !swapped
+                                && compiled_filter.is_none()
+                                && build_matched[bb as usize][br as usize].load(Ordering::Relaxed)
+                            {
+                                return true;
+                            }
                             let pass = match &compiled_filter {
                                 Some(cf) => cf.evaluate(
                                     &build_batches[bb as usize],
@@ -2312,7 +2324,7 @@ fn probe_semi_anti_parallel(
                                         .store(true, Ordering::Relaxed);
                                 }
                             }
-                            pass
+                            pass && swapped
                         });
                         continue;
                     }
@@ -2346,7 +2358,9 @@ fn probe_semi_anti_parallel(
                                         build_matched[entry.batch_idx][entry.row_idx]
                                             .store(true, Ordering::Relaxed);
                                     }
-                                    break;
+                                    if swapped {
+                                        break;
+                                    }
                                 }
                             } else if let Some(filter_expr) = filter {
                                 let build_row_batch = create_single_row_combined_batch(
@@ -2371,17 +2385,23 @@ fn probe_semi_anti_parallel(
                                             build_matched[entry.batch_idx][entry.row_idx]
                                                 .store(true, Ordering::Relaxed);
                                         }
-                                        break;
+                                        if swapped {
+                                            break;
+                                        }
                                     }
                                 }
                             } else {
                                 if swapped {
                                     probe_matched_batch[probe_row].store(true, Ordering::Relaxed);
-                                } else {
-                                    build_matched[entry.batch_idx][entry.row_idx]
-                                        .store(true, Ordering::Relaxed);
+                                    break;
                                 }
-                                break;
+                                // an earlier probe row with this key already
+                                // walked (or is walking) the whole chain
+                                if build_matched[entry.batch_idx][entry.row_idx]
+                                    .swap(true, Ordering::Relaxed)
+                                {
+                                    break;
+                                }
                             }
                         }
                     }
